@@ -144,7 +144,9 @@ def generate(seed, tier):
         before_filter = dict(flt, filtervalue=flt["filtervalue"] + rng.choice([-2, -1, 1, 2, 3]))
     # the source may be a part of an earlier split with the same destination name
     src_is_part = rng.random() < 0.1
-    return {"tb": tb, "before": before, "before_filter": before_filter,
+    # a transformation that hands back another root object than it was given
+    pre_trans = ["add_topnode"] if rng.random() < 0.12 else None
+    return {"pre_trans": pre_trans, "tb": tb, "before": before, "before_filter": before_filter,
             "src_is_part": src_is_part, "src_fmt": src_fmt, "dest_fmt": dest_fmt, "dopts": dopts, "spec": spec,
             "filter": flt, "calls": calls, "layout": rng.randrange(1 << 30),
             "src_enc": src_enc, "dest_enc": dest_enc, "dest_name": dest_name,
@@ -164,10 +166,13 @@ def argv(sc, split):
          "--src-enc", sc.get("src_enc", "utf-8"), "--dest-enc", sc.get("dest_enc", "utf-8")]
     if sc["dopts"]:
         a += ["--dest-opts"] + c03.optlist(sc["dopts"])
+    pre = list(sc.get("pre_trans") or [])
     if sc["filter"]:
-        a += ["--trans", "filter_by_length", "--params",
-              "filteroperator:%s" % sc["filter"]["filteroperator"],
-              "filtervalue:%d" % sc["filter"]["filtervalue"]]
+        a += ["--trans"] + pre + ["filter_by_length", "--params",
+                                  "filteroperator:%s" % sc["filter"]["filteroperator"],
+                                  "filtervalue:%d" % sc["filter"]["filtervalue"]]
+    elif pre:
+        a += ["--trans"] + pre
     if split:
         a += ["--split", sc["spec"]]
     return a
@@ -264,6 +269,15 @@ def execute(sc, sim):
         if not failed:
             viols.append(cm.viol("C17/refusal-missing/discontinuous-to-brackets"))
         return done(sc, st, viols)
+    if failed and sc.get("pre_trans"):
+        # does the same command fail without --split as well?  Then the pipeline cannot be
+        # written in this format at all, which is not a matter of splitting
+        obs0 = sim.run(dict(base, sessions=[{"id": "c", "ops": [["cli", argv(sc, False)]]}]))
+        st.add_obs(obs0)
+        r0_ = obs0["sessions"]["c"][0] if obs0["sessions"]["c"] else {"exc": "hang"}
+        if "exc" in r0_ or r0_["ok"].get("exit") != 0:
+            st.probe("command_fails_without_split_too")
+            return done(sc, st, viols)
     if failed:
         return done(sc, st, [cm.viol("C17/command-failed/%s/%s" % (sc["dest_fmt"],
                                                                    rec.get("exc") or "exit"),
@@ -329,7 +343,11 @@ def execute(sc, sim):
                                      spec=sc["spec"], sizes=got_sizes, unsplit=len(whole))])
     # the model agrees with the unsplit output (ties the check to the treebank, not only to
     # the tool's own unsplit run)
-    if fmt != "terminals" and len(whole) == len(wv):
+    if sc.get("pre_trans"):
+        # a transformation that returns a new root ran before the split: what the parts must
+        # hold is what the unsplit run writes (compared above); the model is not consulted
+        st.probe("root_replacing_transformation_before_split")
+    elif fmt != "terminals" and len(whole) == len(wv):
         for a, b in zip(wv, whole):
             d = views.compare(a, b)
             if d:
